@@ -14,6 +14,7 @@ N = race.N
 R = race.R
 CONC_TREES = {
     "mk": [N(5, R, "a", "dir"), N(6, 5, "b", "dir"), N(7, R, "la", "lnk", "a/b"), N(8, R, "f", "file")],
+    "mkdot": [N(5, R, "a", "dir"), N(6, 5, "b", "dir"), N(7, R, "la", "lnk", "a/b"), N(8, R, "f", "file"), N(9, R, "ld", "lnk", "./a/./b"), N(10, 5, "up", "lnk", "../a/b/.")],
     "rm": [N(5, R, "a", "dir"), N(6, 5, "b", "dir"), N(7, 6, "c", "dir"), N(8, 7, "f1", "file"), N(9, 6, "f2", "file"), N(10, 5, "l_out", "lnk", "../../out"),
            N(11, 5, "l_e", "lnk", "../e"), N(12, R, "e", "dir"), N(13, 12, "keep", "file"), N(14, 6, "d2", "dir"), N(15, 14, "g", "file")],
 }
@@ -21,7 +22,8 @@ CONC_CALLS = {
     "C12": [("mk", [dict(op="mkdir_all", path="a/b/x/y/z", mode=0o755), dict(op="mkdir_all", path="a/b/x/y/z", mode=0o755)]),
             ("mk", [dict(op="mkdir_all", path="la/x/y", mode=0o755), dict(op="mkdir_all", path="a/b/x/w", mode=0o755)]),
             ("mk", [dict(op="mkdir_all", path="n1/n2/n3", mode=0o711), dict(op="mkdir_all", path="n1/n2", mode=0o711)]),
-            ("mk", [dict(op="mkdir_all", path="a/../a/b/q/r", mode=0o700), dict(op="mkdir_all", path="a/b/q", mode=0o755)])],
+            ("mk", [dict(op="mkdir_all", path="a/../a/b/q/r", mode=0o700), dict(op="mkdir_all", path="a/b/q", mode=0o755)]),
+            ("mkdot", [dict(op="mkdir_all", path="ld/x/y", mode=0o755), dict(op="mkdir_all", path="a/up/x/z", mode=0o755)])],
     "C13": [("rm", [dict(op="remove_all", path="a"), dict(op="remove_all", path="a")]),
             ("rm", [dict(op="remove_all", path="a/b"), dict(op="remove_all", path="a/b")]),
             ("rm", [dict(op="remove_all", path="a/b/c"), dict(op="remove_all", path="a/b/c")])],
@@ -33,6 +35,7 @@ MK2_SCENARIOS = {   # Mkdir2.tla scenario -> (tree, calls), mirrored in spec/MC_
     "S2": ("mk", [dict(op="mkdir_all", path="la/x/y", mode=0o755), dict(op="mkdir_all", path="a/b/x/w", mode=0o755)]),
     "S3": ("mk", [dict(op="mkdir_all", path="n1/n2/n3", mode=0o711), dict(op="mkdir_all", path="n1/n2", mode=0o711)]),
     "S4": ("mk", [dict(op="mkdir_all", path="a/../a/b/q/r", mode=0o700), dict(op="mkdir_all", path="a/b/q", mode=0o755)]),
+    "S7": ("mkdot", [dict(op="mkdir_all", path="ld/x/y", mode=0o755), dict(op="mkdir_all", path="a/up/x/z", mode=0o755)]),
 }
 REAL_STEPS = {"try": 1, "reopen": 2, "mk": 1, "open": 1}   # relevant syscalls of the implementation per model action
 
@@ -43,7 +46,7 @@ def tlc_mkdir2(scn, tolerate=True):
     import re
     cfg = os.path.join(workdir(), "mk2-%s-%s.cfg" % (scn, tolerate))
     with open(cfg, "w") as f:
-        f.write("SPECIFICATION Spec\nCONSTANTS\n  Procs = {\"p1\", \"p2\"}\n  Scenario <- %s\n  MaxIno = 20\n  KMaxLinks = 40\n  TolerateEEXIST = %s\n  MaxAttack = 0\n  RefuseDotDotTail = TRUE\n  AtkMkdirNames <- const_NoNames\n"
+        f.write("SPECIFICATION Spec\nCONSTANTS\n  Procs = {\"p1\", \"p2\"}\n  Scenario <- %s\n  MaxIno = 24\n  KMaxLinks = 40\n  TolerateEEXIST = %s\n  MaxAttack = 0\n  RefuseDotDotTail = TRUE\n  AtkMkdirNames <- const_NoNames\n"
                 "INVARIANTS TypeOK AllSucceed HandleIsResolution OnlyNewDirs\nCHECK_DEADLOCK FALSE\n" % (scn, "TRUE" if tolerate else "FALSE"))
     dump = os.path.join(workdir(), "mk2-%s" % scn)
     r = run_tlc("MC_Mkdir2.tla", cfg, workers=1, timeout=900, extra=["-dump", "dot,actionlabels", dump])
@@ -241,7 +244,8 @@ def conc_cases(prop, rnd, quick):
             for si, order in enumerate(scheds):
                 cs = [dict(c, proc=pi) for pi, c in enumerate(calls)]
                 cases.append(dict(id="conc|%s|%s|%s|%d" % (tname, calls[0]["path"], bname, si), tree=CONC_TREES[tname], feat=feat, trace=True, raw=False, procs=2,
-                                  calls=cs, order=order + [first] * 400, post=True, expectall=all(ok), mkmode=calls[0].get("mode", 0o755),
+                                  calls=cs, order=order + [first] * 400, post=True, expectall=True,     # TLC proves AllSucceed for these scenarios (Mkdir2 / Remove2): "concurrent calls all succeed"
+                                  mkmode=calls[0].get("mode", 0o755),
                                   meta=dict(kind="concurrent", tree=tname, calls=calls, backend=bname, order_prefix=order, alone_ok=ok)))
     # schedules derived from the state graph of the two-process model (one per transition), for the
     # backend the model describes (openat2-style partial lookup)
